@@ -173,6 +173,7 @@ func (o *ObsC07) AfterOp(x *Exec, i int, op Op, res *OpResult) *vcore.Failure {
 // ---------- C09: reserved and de-configured IPs are never allocated; reload is lossless ----------
 
 type ObsC09 struct {
+	leftover    map[string]bool // objects of de-configured IPs whose deletion failed because of the injected API error
 	bindSeen    int
 	DroppedKept bool // a reload dropped >= 1 allocated IP and kept >= 1
 	InWindow    bool
@@ -241,8 +242,20 @@ func (o *ObsC09) AfterOp(x *Exec, i int, op Op, res *OpResult) *vcore.Failure {
 	if len(alloc)+len(unalloc) != len(conf) {
 		return vcore.Failf("c09:reload:tables", "after a reload tables hold %d+%d IPs, configuration has %d", len(alloc), len(unalloc), len(conf))
 	}
+	// (ConfigurePool deliberately goes on when the deletion of a de-configured object fails - "every freshCache will produce an
+	// error" otherwise - and the next reload or restart tries again: with a failing API call injected into this very operation a
+	// leftover object is by design, not a finding)
+	faultHere := x.C.FaultAt != nil && x.C.FaultAt.Op == i && x.W.faultHitEver
+	if o.leftover == nil {
+		o.leftover = map[string]bool{}
+	}
 	for ip := range x.W.StoreList() {
-		if _, ok := conf[ip]; !ok {
+		if _, ok := conf[ip]; !ok && faultHere {
+			o.leftover[ip] = true // stays until a later reload with a different text (or a restart) deletes it
+		}
+	}
+	for ip := range x.W.StoreList() {
+		if _, ok := conf[ip]; !ok && !o.leftover[ip] {
 			return vcore.Failf("c09:reload:stale_object", "after a reload the FloatingIP object %s still exists although the IP is not configured", ip)
 		}
 	}
